@@ -183,9 +183,19 @@ func genScenario(r *lib.Rng, cp int, i int) Case {
 		if cp >= 8 && r.Bool() {
 			ws = append(ws, g.join([]string{"write"}, false))
 		}
+		// a connection with its own valid token for a DIFFERENT session id that merely continues the
+		// topic with a character outside the relay's topic pattern: the relay refuses it (its scanner
+		// reads the bare topic, the token says otherwise); were it let in, it would share the hub topic
+		var stranger uint64
+		if r.Bool() {
+			stranger = g.join(rw, false)
+			g.ops[len(g.ops)-1].TS = []string{":1", "~x", "@b", " c", ":2"}[r.Intn(5)]
+		}
 		for k, n := 0, r.Range(10, 24); k < n; k++ {
 			x := r.Intn(100)
 			switch {
+			case x >= 90 && stranger != 0:
+				g.send(stranger, 125)
 			case x < 6 && ro != 0:
 				g.send(ro, 125) // a reader without write scope talks: nobody may hear it
 			case x < 12 && len(ws) > 2:
